@@ -137,6 +137,12 @@ pub trait Check: 'static {
     fn normalise(case: Self::Case) -> Self::Case {
         case
     }
+    /// false for a check that runs on real threads (the harness does not own the schedule): a failure
+    /// of such a check is reported only if it shows again when the very same case is evaluated again
+    /// (up to three more times); one that never shows again is counted as class
+    /// `failure_observed_once_not_reproduced`, noted on stderr, and the search goes on. The replay
+    /// file of a reported violation must fail when replayed; a once-only outcome cannot.
+    const OWNS_SCHEDULE: bool = true;
 }
 
 #[derive(Debug, Clone, Serialize, serde::Deserialize)]
@@ -721,6 +727,15 @@ fn run_worker<C: Check>(
                         *s.known_hits.entry(sig).or_default() += 1;
                     }
                     return Ok(());
+                }
+                if !C::OWNS_SCHEDULE && !is_shrinking {
+                    let again = (0..3).any(|_| matches!(eval_guarded::<C>(&case).outcome, Outcome::Fail { .. }));
+                    if !again {
+                        let mut s = stats.lock().unwrap();
+                        *s.classes.entry("failure_observed_once_not_reproduced").or_default() += 1;
+                        eprintln!("NOTE check={} a failure was observed once and did not show again in 3 re-evaluations of the same case (real threads: the schedule is not the harness's): {sig} :: {}", C::NAME, msg.chars().take(300).collect::<String>());
+                        return Ok(());
+                    }
                 }
                 // while shrinking only accept failures with the same signature as the first one,
                 // so the minimised case reproduces *this* violation
